@@ -396,7 +396,10 @@ def solve_affine_equations_for(unknowns, equations):
 
     mat, rhs_mat = gaussian_elimination(mat, rhs_mat)
 
-    # FIXME /!\ Does not check for overdetermined system.
+    # an equation that lost all its unknowns must not demand anything
+    for i_eqn in range(len(equations)):
+        if not mat[i_eqn].any() and rhs_mat[i_eqn].any():
+            raise RuntimeError("equations are inconsistent")
 
     result = {}
     for j, unknown in enumerate(unknowns):
@@ -405,6 +408,10 @@ def solve_affine_equations_for(unknowns, equations):
             raise RuntimeError(f"cannot uniquely solve for '{unknown}'")
 
         (nonz_row,) = nonz_row
+
+        if np.count_nonzero(mat[nonz_row]) != 1:
+            # the row still involves another unknown
+            raise RuntimeError(f"cannot uniquely solve for '{unknown}'")
 
         if abs(mat[nonz_row, j]) != 1:
             raise RuntimeError(
